@@ -964,6 +964,10 @@ impl DiskIO {
         let block = metadata_block(&encoded)?;
         self.write_sectors_sync(FEOX_METADATA_BLOCK, &block)?;
         self.write_sectors_sync(FEOX_METADATA_BACKUP_BLOCK, &block)?;
+        // The signature has to be durable before anything else is written: a journal or
+        // record block that reaches the platter first leaves a non-empty file without
+        // metadata, which can never be opened again.
+        self.flush()?;
         *metadata = next;
         Ok(())
     }
